@@ -21,22 +21,25 @@ import (
 )
 
 type Step struct {
-	Op         string            `json:"op"`                // rtx | wtx | appckpt | lfsckpt | reopen | drop | lockonly
-	Writes     map[uint32]uint64 `json:"writes,omitempty"`  // pgno -> content id
-	Frames     [][2]uint64       `json:"frames,omitempty"`  // WAL: (pgno, content id) in write order
-	Aborted    [][2]uint64       `json:"aborted,omitempty"` // WAL: frames of a rolled-back tx written first
-	NewSize    uint32            `json:"new_size,omitempty"`
-	JMode      int               `json:"jmode,omitempty"`
-	Outcome    int               `json:"outcome,omitempty"`
-	Sector     int               `json:"sector,omitempty"`
-	ToWAL      bool              `json:"to_wal,omitempty"`
-	FailCommit bool              `json:"fail_commit,omitempty"` // the rename that publishes the transaction file fails once: SQLite rolls back
-	Split      bool              `json:"split,omitempty"`
-	CkptMode   int               `json:"ckpt_mode,omitempty"` // 0 passive 1 full 2 restart 3 truncate
-	Ages       []bool            `json:"ages,omitempty"`      // retention: per file (directory order) older than the cut-off?
-	Backup     bool              `json:"backup,omitempty"`    // retention: a backup client is configured
-	HWM        uint64            `json:"hwm,omitempty"`       // retention: high-water mark
-	Spill      int               `json:"spill,omitempty"`     // rtx: pages beyond old and new size spilled to the file and freed again
+	Op           string            `json:"op"`                // rtx | wtx | appckpt | lfsckpt | reopen | drop | lockonly
+	Writes       map[uint32]uint64 `json:"writes,omitempty"`  // pgno -> content id
+	Frames       [][2]uint64       `json:"frames,omitempty"`  // WAL: (pgno, content id) in write order
+	Aborted      [][2]uint64       `json:"aborted,omitempty"` // WAL: frames of a rolled-back tx written first
+	NewSize      uint32            `json:"new_size,omitempty"`
+	JMode        int               `json:"jmode,omitempty"`
+	Outcome      int               `json:"outcome,omitempty"`
+	Sector       int               `json:"sector,omitempty"`
+	ToWAL        bool              `json:"to_wal,omitempty"`
+	ForeignClose bool              `json:"foreign_close,omitempty"` // another connection, which read earlier, closes its handle between the writer's page writes and its commit
+	Die          bool              `json:"die,omitempty"`           // rtx: the client dies after its page writes (hot journal left, locks gone); LiteFS then recovers (role change / halt)
+	JSplit       int               `json:"jsplit,omitempty"`        // records in the journal's first segment (0: one segment)
+	FailCommit   bool              `json:"fail_commit,omitempty"`   // the rename that publishes the transaction file fails once: SQLite rolls back
+	Split        bool              `json:"split,omitempty"`
+	CkptMode     int               `json:"ckpt_mode,omitempty"` // 0 passive 1 full 2 restart 3 truncate
+	Ages         []bool            `json:"ages,omitempty"`      // retention: per file (directory order) older than the cut-off?
+	Backup       bool              `json:"backup,omitempty"`    // retention: a backup client is configured
+	HWM          uint64            `json:"hwm,omitempty"`       // retention: high-water mark
+	Spill        int               `json:"spill,omitempty"`     // rtx: pages beyond old and new size spilled to the file and freed again
 }
 
 type Obs struct {
@@ -71,6 +74,7 @@ type Config struct {
 	AllowDrop      bool
 	BigEndian      bool
 	CommitFaults   bool // some rollback-journal commits fail inside LiteFS (the transaction file cannot be published)
+	Clients        bool // other client behaviour: a second connection closing mid-transaction, a writer that dies (LiteFS recovers), WAL transactions rolled back after spilling
 }
 
 type Runner struct {
@@ -276,6 +280,13 @@ func (h *Runner) genStep() Step {
 			return Step{Op: "appckpt", CkptMode: r.Intn(4)}
 		case x < 28:
 			return Step{Op: "lfsckpt"}
+		case x < 36 && h.Cfg.Clients:
+			// a WAL transaction that spills frames into the log and rolls back; LiteFS checkpoints afterwards
+			st := Step{Op: "wabort", CkptMode: r.Intn(2)}
+			for i := 0; i < 1+r.Intn(4); i++ {
+				st.Aborted = append(st.Aborted, [2]uint64{uint64(1 + r.Intn(int(cur)+2)), h.nextContent()})
+			}
+			return st
 		}
 		return h.genWTX(cur)
 	}
@@ -332,8 +343,19 @@ func (h *Runner) genRTX(cur uint32, toWAL bool) Step {
 	if cur > 0 && r.Chance(18) {
 		st.Spill = 1 + r.Intn(3)
 	}
+	if h.Cfg.Clients && cur > 1 && r.Chance(25) {
+		st.JSplit = 1 + r.Intn(3)
+	}
 	if h.Cfg.CommitFaults && cur > 0 && st.Outcome == 0 && !toWAL && r.Chance(15) {
 		st.FailCommit = true
+	}
+	if h.Cfg.Clients && cur > 0 && st.Outcome == 0 && !st.FailCommit {
+		switch x := r.Intn(100); {
+		case x < 12:
+			st.ForeignClose = true
+		case x < 22 && !toWAL && st.Spill == 0:
+			st.Die = true
+		}
 	}
 	if h.Cfg.Regime == 3 { // keep lock-page regimes sparse: do not write thousands of pages
 		for pg := range st.Writes {
@@ -374,6 +396,8 @@ func (h *Runner) genWTX(cur uint32) Step {
 	return st
 }
 
+var ctx = context.Background()
+
 func maxU32(a, b uint32) uint32 {
 	if a > b {
 		return a
@@ -382,7 +406,18 @@ func maxU32(a, b uint32) uint32 {
 }
 
 func (h *Runner) page(pg uint32, content uint64, size uint32, wal bool) []byte {
-	return lfs.MakePage(h.Cfg.PageSize, pg, content, size, wal)
+	p := lfs.MakePage(h.Cfg.PageSize, pg, content, size, wal)
+	// ordinary pages whose bytes 18..19 look like page 1's write / read version fields (2 = WAL, 1 = rollback
+	// journal): only page 1 says which journal mode the database is in
+	if pg != 1 {
+		switch content % 5 {
+		case 0:
+			p[18], p[19] = 2, 2
+		case 1:
+			p[18], p[19] = 1, 1
+		}
+	}
+	return p
 }
 
 // Exec runs one step against the real DB and updates the reference.
@@ -403,7 +438,7 @@ func (h *Runner) Exec(st Step) Obs {
 				return
 			}
 			wal := h.WALMode || st.ToWAL
-			tx := lfs.Tx{Writes: map[uint32][]byte{}, NewSize: st.NewSize, Wal: wal}
+			tx := lfs.Tx{Writes: map[uint32][]byte{}, NewSize: st.NewSize, Wal: wal, JournalSplit: st.JSplit}
 			for pg, cid := range st.Writes {
 				tx.Writes[pg] = h.page(pg, cid, st.NewSize, wal)
 			}
@@ -416,6 +451,41 @@ func (h *Runner) Exec(st Step) Obs {
 				for i := 1; i <= st.Spill; i++ {
 					tx.Spill[top+uint32(i)] = h.page(top+uint32(i), h.nextContent(), st.NewSize, wal)
 				}
+			}
+			if st.ForeignClose {
+				other := h.owner + 7000
+				if h.DB != nil && h.DB.TryRLocks(ctx, other, []litefs.LockType{litefs.LockTypePending}) {
+					_ = h.DB.TryRLocks(ctx, other, []litefs.LockType{litefs.LockTypeShared})
+					_ = h.DB.Unlock(ctx, other, []litefs.LockType{litefs.LockTypePending, litefs.LockTypeShared})
+				}
+				h.Pager.BeforeCommit = func() {
+					if h.DB != nil {
+						h.DB.UnlockDatabase(ctx, other) // close() of the other connection's descriptor
+					}
+				}
+				defer func() { h.Pager.BeforeCommit = nil }()
+			}
+			if st.Die && lfs.RollbackOutcome(st.Outcome) == lfs.Commit {
+				pre := h.Ref
+				err = h.Pager.RunRollbackTx(h.Ref, tx, lfs.JournalMode(st.JMode), lfs.DieAfterWrite, st.Sector, 0)
+				if err != nil {
+					return
+				}
+				// LiteFS rolls the hot journal back itself (what it does on a role change and when it grants a halt
+				// lock): to the model these are page writes of the pre-images, the cut to the old size, and the
+				// journal's removal
+				if err = h.DB.Recover(ctx); err != nil {
+					return
+				}
+				for _, pg := range h.Pager.LastRecs {
+					h.Rec.Write(pg, pre.Pages[pg-1])
+				}
+				if h.Pager.LastGrew {
+					h.Rec.Truncate(uint32(len(pre.Pages)))
+				}
+				// (rollbackJournal removes the journal without going through the commit path: the pages stay marked
+				// as written and the next transaction's file carries them again, unchanged)
+				return
 			}
 			failing := st.FailCommit && lfs.RollbackOutcome(st.Outcome) == lfs.Commit
 			if failing {
@@ -507,6 +577,34 @@ func (h *Runner) Exec(st Step) Obs {
 			h.Ref = lfs.ApplyTx(h.Ref, tx, ps)
 			h.RefPos++
 			ob.Captured = true
+		case "wabort":
+			if err = h.Pager.BeginWALWrite(); err != nil {
+				return
+			}
+			if err = h.Pager.WriteWALFrames(nil, 0, false); err != nil { // the header of this generation exists
+				h.Pager.EndWALWrite()
+				return
+			}
+			m := h.Pager.Mark()
+			var fr []lfs.WALFrameSpec
+			for _, f := range st.Aborted {
+				fr = append(fr, lfs.WALFrameSpec{Pgno: uint32(f[0]), Data: h.page(uint32(f[0]), f[1], uint32(len(h.Ref.Pages)), true)})
+			}
+			if err = h.Pager.WriteWALFrames(fr, 0, false); err != nil {
+				h.Pager.EndWALWrite()
+				return
+			}
+			h.Pager.DropPending()
+			h.Pager.EndWALWrite() // nothing committed: nothing to capture
+			h.Pager.ResetTo(m)
+			if st.CkptMode == 1 {
+				// LiteFS checkpoints on its own (role change, halt lock, backup restore) with the rolled-back frames
+				// still sitting, valid, behind the last commit
+				h.Rec.Checkpoint()
+				if err = h.DB.Checkpoint(ctx); err == nil {
+					h.Pager.RestartWAL(uint32(h.R.U64()), uint32(h.R.U64()))
+				}
+			}
 		case "torollback":
 			// PRAGMA journal_mode=DELETE in WAL mode: a WAL transaction rewrites page 1 with version 1,
 			// the WAL is checkpointed completely and the -wal / -shm files are deleted
